@@ -6,7 +6,6 @@ import (
 	"os"
 	"os/exec"
 	"path/filepath"
-	"strings"
 	"time"
 )
 
@@ -48,7 +47,11 @@ func runPP(stdin []byte, env []string, args ...string) ppResult {
 	return res
 }
 
+// crashed: the Go runtime exits with status 2 after a panic or fatal error
+// and a killed process has no exit status; pp's own failures exit 1.
 func crashed(res *ppResult) bool {
-	s := string(res.Stderr)
-	return res.Exit == 2 || res.Exit < 0 && !res.TimedOut || strings.Contains(s, "panic:") || strings.Contains(s, "fatal error:") || strings.Contains(s, "goroutine 1 [")
+	if res.TimedOut {
+		return false
+	}
+	return res.Exit == 2 || res.Exit < 0
 }
